@@ -475,6 +475,136 @@ V_Watch(e) ==
         ELSE "ok"
 
 ---------------------------------------------------------------------------
+\* C06 paper-wallet records
+PurposeNum(b) == CASE b = "bip44" -> 44 [] b = "bip49" -> 49 [] b = "bip84" -> 84
+PurposeKind(b) == CASE b = "bip44" -> "p2pkh" [] b = "bip49" -> "p2sh_p2wpkh" [] b = "bip84" -> "p2wpkh"
+CoinOf(net) == IF net = "test" THEN 1 ELSE 0
+UpperHexDigit(n) == IF n < 10 THEN 48 + n ELSE 55 + n
+UpperHex(bs) == Flatten([i \in 1..Len(bs) |-> <<UpperHexDigit(bs[i] \div 16), UpperHexDigit(bs[i] % 16)>>])
+WifStr(e, k, net) == LET pl == WifPayload(k, TRUE, net) IN EncCheck(pl, Hash256(e, pl))
+
+\* expected block of one purpose: [ok, path, pub, prv, rows]
+ExpBlock(e, master, b, net, account, start, end) ==
+  LET apath == <<HSmall(PurposeNum(b)), HSmall(CoinOf(net)), HSmall(account)>>
+      acct == K32!DerivePath(e, master, apath)
+      chain == K32!DerivePath(e, master, apath \o <<Zeros(4)>>)
+      \* start / end are 5-byte big-endian numbers (2^31 does not fit a TLC integer); at most 8 rows per event
+      cand(j) == AddC(start, FromNat(j - 1, 5))[2]
+      nrows == Cardinality({j \in 1..8 : Less(cand(j), end)})
+      rowOf(j) == LET i4 == Drop(cand(j), 1)
+                      c == K32!CKD(e, chain.node, i4)
+                  IN << Format(TRUE, apath \o <<Zeros(4), i4>>), AD!Addr(e, PurposeKind(b), c.node.K, net),
+                        Hex(c.node.K), WifStr(e, c.node.k, net) >>
+  IN [path |-> Format(TRUE, apath),
+      pub |-> XpubStr(e, acct.node, Ver("pub", net, b)),
+      prv |-> XprvStr(e, acct.node, Ver("prv", net, b)),
+      rows |-> [j \in 1..nrows |-> rowOf(j)]]
+
+BlockDiff(want, got, name) ==
+  IF got.path # want.path THEN name \o "-account-path"
+  ELSE IF got.pub # want.pub THEN name \o "-account-extended-public-key"
+  ELSE IF got.prv # want.prv THEN name \o "-account-extended-private-key"
+  ELSE IF Len(got.rows) # Len(want.rows) THEN name \o "-number-of-rows"
+  ELSE IF \E j \in 1..Len(want.rows) : got.rows[j] # want.rows[j]
+       THEN LET j == CHOOSE x \in 1..Len(want.rows) : got.rows[x] # want.rows[x] /\ \A y \in 1..(x-1) : got.rows[y] = want.rows[y]
+                g == got.rows[j]  w == want.rows[j]
+            IN IF Len(g) # 4 THEN name \o "-row-shape"
+               ELSE IF g[1] # w[1] THEN name \o "-row-path"
+               ELSE IF g[2] # w[2] THEN name \o "-row-address"
+               ELSE IF g[3] # w[3] THEN name \o "-row-sec"
+               ELSE name \o "-row-wif"
+  ELSE "same"
+
+\* the wallet's master node, derived by the specification from the source secret of the event
+MasterFromInp(e) ==
+  LET seed == IF "seed" \in DOMAIN e.inp THEN e.inp.seed ELSE B39!Seed(e, e.inp.mnemonic, e.inp.password)
+  IN K32!Master(e, seed, e.inp.net).node
+
+\* e.inp = [mnemonic, password | seed, net, account, start, end]; e.res.v = [mnemonic, password, bip44, bip49, bip84]
+V_Generate(e) ==
+  LET m == MasterFromInp(e)
+      d(b) == BlockDiff(ExpBlock(e, m, b, e.inp.net, e.inp.account, e.inp.start, e.inp.end), e.res.v[b], b)
+  IN IF Raised(e) THEN "generate-raised"
+     ELSE IF e.res.v.mnemonic # e.inp.mnemonic \/ e.res.v.password # e.inp.password THEN "generate-master-block-not-echoed"
+     ELSE IF d("bip44") # "same" THEN "generate-" \o d("bip44")
+     ELSE IF d("bip49") # "same" THEN "generate-" \o d("bip49")
+     ELSE IF d("bip84") # "same" THEN "generate-" \o d("bip84")
+     ELSE IF "jsonfile" \in DOMAIN e /\ JsonDeserialize(e.jsonfile) # e.tree THEN "generate-json-does-not-parse-back"
+     ELSE "ok"
+
+\* e.inp = [master, net]; e.res.v = [xpub, fp]
+V_Wasabi(e) ==
+  LET m == MasterFromInp(e)
+      n == K32!DerivePath(e, m, <<HSmall(84), HSmall(0), HSmall(0)>>)
+  IN IF Raised(e) THEN "wasabi-raised"
+     ELSE IF e.res.v.xpub # XpubStr(e, n.node, DefaultVer("pub", e.inp.net)) THEN "wasabi-extpubkey"
+     ELSE IF e.res.v.fp # UpperHex(K32!Fingerprint(e, m.K)) THEN "wasabi-master-fingerprint"
+     ELSE "ok"
+
+---------------------------------------------------------------------------
+\* C15 paranoia mode.  e.full / e.filt: leaves [ptr, role, s] of the unfiltered / filtered output
+Tokens(s) == Split(s, 32)
+SecretRoles == {"mnemonic", "password", "bip85", "prv", "wif"}
+V_Paranoia(e) ==
+  LET secrets == {e.full[j].s : j \in {x \in 1..Len(e.full) :
+                     e.full[x].role \in SecretRoles \/ ClassOf(e, e.full[x].s).kind \in {"wif", "extprv"}}}
+      nonEmptySecrets == {x \in secrets : Len(x) > 0}
+      words == IF "words" \in DOMAIN e THEN {e.words[j] : j \in 1..Len(e.words)} ELSE {}
+      looksMnemonic(s) == LET t == Tokens(s) IN Len(t) >= 12 /\ \A j \in 1..Len(t) : t[j] \in words
+      bad == {j \in 1..Len(e.filt) :
+                LET s == e.filt[j].s
+                IN \/ ClassOf(e, s).kind \in {"wif", "extprv"}
+                   \/ looksMnemonic(s)
+                   \/ s \in nonEmptySecrets
+                   \* substring test for secrets long enough not to occur in public text by coincidence
+                   \/ \E x \in nonEmptySecrets : Len(x) >= 8 /\ IsSubSeqOf(x, s)}
+      pubFull == {<<e.full[j].ptr, e.full[j].s>> : j \in {x \in 1..Len(e.full) : e.full[x].role \in {"path", "addr", "sec", "pub"}}}
+      pubFilt == {<<e.filt[j].ptr, e.filt[j].s>> : j \in 1..Len(e.filt)}
+  IN IF Raised(e) THEN "paranoia-raised"
+     ELSE IF bad # {} THEN
+          LET j == CHOOSE x \in bad : \A y \in bad : x <= y
+              s == e.filt[j].s
+          IN IF ClassOf(e, s).kind = "wif" THEN "paranoia-output-contains-wif"
+             ELSE IF ClassOf(e, s).kind = "extprv" THEN "paranoia-output-contains-extended-private-key"
+             ELSE IF looksMnemonic(s) THEN "paranoia-output-contains-mnemonic"
+             ELSE "paranoia-output-contains-secret-string"
+     ELSE IF pubFilt # pubFull THEN
+          (IF pubFull \ pubFilt # {} THEN "paranoia-public-data-missing-or-changed" ELSE "paranoia-extra-data")
+     ELSE "ok"
+
+\* PaperWallet.bip85_data(): e.inp = [master]; e.res.v = seq of [path, value]
+Bip85DataSpec == << <<"mnemonic", 24, 0>>, <<"mnemonic", 18, 0>>, <<"mnemonic", 12, 0>>,
+                    <<"wif", 0, 0>>, <<"wif", 0, 1>>, <<"wif", 0, 2>>,
+                    <<"xprv", 0, 0>>, <<"xprv", 0, 1>>, <<"xprv", 0, 2>> >>
+V_Bip85Data(e) ==
+  LET m == MasterFromInp(e)
+      ixOf(i) == [neg |-> FALSE, mag |-> <<i>>]
+      want(j) == LET t == Bip85DataSpec[j]
+                 IN << Format(TRUE, PathOf(t[1], t[2], ixOf(t[3])).path), Bip85Value(e, m, t[1], t[2], ixOf(t[3])).str >>
+  IN IF Raised(e) THEN "bip85data-raised"
+     ELSE IF Len(e.res.v) # 9 THEN "bip85data-number-of-entries"
+     ELSE IF \E j \in 1..9 : e.res.v[j][1] # want(j)[1] THEN "bip85data-path-label"
+     ELSE IF \E j \in 1..9 : e.res.v[j][2] # want(j)[2] THEN "bip85data-value"
+     ELSE "ok"
+
+---------------------------------------------------------------------------
+\* C08 new mnemonics: e.inp = [words]; e.requests = seq of [src, n]; e.prng_same; e.res.v = [idx]
+SumN(reqs) == FoldLeft(LAMBDA acc, r : acc + r.n, 0, reqs)
+V_NewMnemonic(e) ==
+  LET ent == (32 * e.inp.words) \div 3
+  IN IF Raised(e) THEN (IF e.inp.words \in {12, 15, 18, 21, 24} THEN "new-raised" ELSE "ok")
+     ELSE IF e.inp.words \notin {12, 15, 18, 21, 24} THEN "new-accepted-illegal-length"
+     ELSE IF 8 * SumN(e.requests) < ent THEN "new-fewer-os-bits-than-entropy"
+     ELSE IF \E j \in 1..Len(e.requests) : e.requests[j].src \notin {"os.urandom", "random._urandom"} THEN "new-foreign-entropy-source"
+     ELSE IF ~e.prng_same THEN "new-touched-the-seedable-generator"
+     ELSE IF Len(e.res.v.idx) # e.inp.words THEN "new-word-count"
+     ELSE IF \E j \in 1..Len(e.res.v.idx) : e.res.v.idx[j] < 0 THEN "new-word-not-in-list"
+     ELSE LET d == B39!Decode(e.res.v.idx)
+          IN IF 8 * Len(d.ent) # ent THEN "new-entropy-size"
+             ELSE IF B39!Sentence(e, d.ent).idx # e.res.v.idx THEN "new-checksum-invalid"
+             ELSE "ok"
+
+---------------------------------------------------------------------------
 Verdict(e) ==
   CASE e.act = "Master" -> V_Master(e)
     [] e.act = "CkdPriv" -> V_CkdPriv(e)
@@ -500,6 +630,11 @@ Verdict(e) ==
     [] e.act = "Bip85" -> V_Bip85(e)
     [] e.act = "Emit" -> V_Emit(e)
     [] e.act = "Watch" -> V_Watch(e)
+    [] e.act = "Generate" -> V_Generate(e)
+    [] e.act = "Wasabi" -> V_Wasabi(e)
+    [] e.act = "Paranoia" -> V_Paranoia(e)
+    [] e.act = "Bip85Data" -> V_Bip85Data(e)
+    [] e.act = "NewMnemonic" -> V_NewMnemonic(e)
     [] OTHER -> "unknown-act"
 
 TraceInit == l = 1
